@@ -35,6 +35,19 @@ INT = z3.IntSort()
 def build(S):
     S.function(REL, 'Atoms.assert_arrays_are_consistent_sizes')
 
+    # ---------------------------------------------------------------- assumption A4 is about the code that is there: copy() IS copy.deepcopy(self)
+    def run_copy():
+        import ast as _ast
+        S.function(REL, 'Atoms.copy')
+        I = S.interp()
+        fn = I.module(REL).find('Atoms.copy')
+        body = [n for n in fn.body if not (isinstance(n, _ast.Expr) and isinstance(n.value, _ast.Constant))]
+        if not (len(body) == 1 and isinstance(body[0], _ast.Return) and _ast.unparse(body[0].value) == 'copy.deepcopy(self)'):
+            raise OutOfSubset("Atoms.copy is no longer `return copy.deepcopy(self)`: every proof that models copy() as a fresh, independent object with "
+                              "equal fields (assumption A4) does not apply to this code")
+        S.add(I, "copy/is-a-deep-copy-of-the-object", [], z3.BoolVal(True), clause='copy() gives an independent object (A4: copy.deepcopy)')
+    S.guarded('Atoms.copy', run_copy)
+
     # ---------------------------------------------------------------- the consistency assertion really asserts the size part of WF
     def run_assert():
         I = S.interp()
